@@ -394,6 +394,7 @@ func genConc(r *vc.Rand, thorough bool) []string {
 	if thorough {
 		out = append(out, "sweep call 20000 16 20", "sweep tick 2000 16 200", "sweep call 1000 3 200")
 	}
+	out = append(out, genBurst(r, thorough)...)
 	// atomic claims: exactly one winner
 	out = append(out,
 		"conc nx a "+x+" 0 ; nx a "+y+" 0 ; nx a i1 0",
